@@ -275,10 +275,10 @@ def match_known(v, plan, known):
     return None
 
 
-def _sweep_old_scratch(max_age_s=6 * 3600):
+def _sweep_old_scratch(max_age_s=2 * 3600):
     """scratch of earlier (killed) checks and old replay files do not pile up"""
     now = time.time()
-    for sub in ("work", "replays"):
+    for sub in ("work", "replays", "scratch"):
         base = os.path.join(OUT, sub)
         if not os.path.isdir(base):
             continue
